@@ -60,6 +60,14 @@ PairSwaps(fn, b, typ) ==
     [] fn = "ReadLeaseSet2" -> (LET r == RefLeaseSet2(b) IN IF r.ok THEN Sw(r.optOff, r.optPairs) ELSE << >>)
     [] fn = "ReadMetaLeaseSet" -> (LET r == RefMetaLeaseSet(b) IN IF r.ok THEN Sw(r.optOff, r.optPairs) ELSE << >>)
     [] OTHER -> << >>
+\* offsets of plain content bytes inside the covered region (flipping one keeps the structure parseable): published / date fields, a key byte
+ContentOffsets(fn, b, typ) ==
+  CASE fn = "ReadRouterInfo" -> (LET r == RefRouterInfo(b) IN IF r.ok THEN << r.pubOff + 7, r.pubOff + 3 >> ELSE << >>)
+    [] fn = "ReadLeaseSet2" -> (LET r == RefLeaseSet2(b) IN IF r.ok THEN << r.h.d.consumed + 3, r.keyStarts[1] + 6 >> ELSE << >>)
+    [] fn = "ReadMetaLeaseSet" -> (LET r == RefMetaLeaseSet(b) IN IF r.ok THEN << r.h.d.consumed + 3, r.entryStarts[1] + 5 >> ELSE << >>)
+    [] fn = "ReadLeaseSet" -> (LET r == RefLeaseSet(b) IN IF r.ok THEN << r.encOff + 9, r.leaseOff + 5 >> ELSE << >>)
+    [] fn = "ReadEncryptedLeaseSet" -> (LET r == RefEncryptedLeaseSet(b) IN IF r.ok THEN << r.hdrOff + 3, r.lenOff + 9 >> ELSE << >>)
+    [] OTHER -> << 3 >>
 StoreTypePrefix(fn) == CASE fn = "ReadLeaseSet2" -> << 3 >> [] fn = "ReadMetaLeaseSet" -> << 7 >> [] fn = "ReadEncryptedLeaseSet" -> << 5 >> [] OTHER -> << >>
 
 JSignedProbe(e) ==
